@@ -21,7 +21,7 @@ LEVEL = "exploration"
 RULE = ("a case is one Parallel call: N in {0,1,..around k*n_jobs*batch +-1..,200} x n_jobs x batch_size (1,2,3,7,25,40,'auto') x "
         "pre_dispatch (1,2,'n_jobs','2*n_jobs','1.5*n_jobs','all',3*n, and forms that evaluate to 0: 0, 'n_jobs//16', '0.1*n_jobs', 'n_jobs-n_jobs') x return_as (list, generator), on (a) the scripted "
         "backend with a seeded completion order, 1-3 callback threads, optional synchronous in-submit completion and "
-        "seeded pre-emption injection on joblib/parallel.py, or (b) a real backend with seeded task durations, or (c) two generator "
+        "seeded pre-emption injection on joblib/parallel.py (for 'auto', 60 % of the calls feed joblib's own auto-batching heuristic with scripted batch durations - fast then slow, slow then fast, alternating, ramps, random, in virtual time - so that the batch size grows and shrinks during the call), or (b) a real backend with seeded task durations, or (c) two generator "
         "calls on one object, the second made while the first generator still holds results of its completed run; "
         "distinct_nontrivial counts distinct (configuration, observed completion order) pairs with N >= 2")
 ASSUMPTIONS = [
@@ -32,9 +32,11 @@ ASSUMPTIONS = [
 ]
 SHARDS = {"quick": 12, "thorough": 14}
 FLOORS = {"quick": {"scripted_calls": 1500, "real_backend_calls": 60, "injected_yields": 2000, "sync_in_submit_completions": 200,
-                    "distinct_completion_orders": 400, "second_calls_while_first_generator_holds_results": 40},
+                    "distinct_completion_orders": 400, "second_calls_while_first_generator_holds_results": 40,
+                    "auto_calls_with_scripted_durations": 100, "auto_calls_in_which_the_batch_size_shrank": 40, "distinct_auto_batch_size_sequences": 60},
           "thorough": {"scripted_calls": 30000, "real_backend_calls": 900, "injected_yields": 40000,
-                       "sync_in_submit_completions": 4000, "distinct_completion_orders": 8000, "second_calls_while_first_generator_holds_results": 800}}
+                       "sync_in_submit_completions": 4000, "distinct_completion_orders": 8000, "second_calls_while_first_generator_holds_results": 800,
+                       "auto_calls_with_scripted_durations": 2000, "auto_calls_in_which_the_batch_size_shrank": 800, "distinct_auto_batch_size_sequences": 800}}
 
 _S = {}
 EXECLOG = []
@@ -120,6 +122,31 @@ def run_scripted(sid, ctx):
     trace = Trace()
     srng = harness.rng_for(ctx.seed, ID, "sync", sid)
     be = ScriptedBackend(trace=trace, sync_in_submit=(lambda fut: srng.random() < sync_p) if sync_p else None)
+    profile = None
+    if cfg["b"] == "auto" and not short and rng.random() < 0.6:
+        # the real auto-batching heuristic fed with scripted batch durations (virtual time: nothing sleeps), so that the
+        # batch size grows, shrinks and is reset while the call runs
+        profile = rng.choice(["fast-then-slow", "fast-then-slow", "random", "alternating", "slow-then-fast", "ramp"])
+        cfg["N"] = N = rng.choice([N, 40, 64, 120, 200])
+        drng = harness.rng_for(ctx.seed, ID, "dur", sid)
+        switch = drng.randint(1, 9)
+        fast, slow = drng.choice([0.0005, 0.02, 0.1, 0.19]), drng.choice([2.1, 2.5, 5.0, 30.0, 1000.0])
+        seen = [0]
+
+        def virtual(batch_size, real):
+            seen[0] += 1
+            k = seen[0]
+            if profile == "fast-then-slow":
+                return fast if k <= switch else slow * batch_size
+            if profile == "slow-then-fast":
+                return slow if k <= switch else fast
+            if profile == "alternating":
+                return fast if (k // switch) % 2 == 0 else slow
+            if profile == "ramp":
+                return fast * (2 ** k) if k < 16 else slow
+            return drng.choice([fast, fast, 0.3, 1.0, slow])
+        be.virtual_duration = virtual
+        ctx.count("auto_calls_with_scripted_durations")
     ctl = AutoController(be, harness.rng_for(ctx.seed, ID, "ctl", sid), nthreads=ncb, jitter=rng.random() < 0.7)
     inj = _S["inj"]
     inj.reseed(ctx.seed * 7919 + sid, p_yield=rng.choice([0.0, 0.02, 0.05]), p_sleep=rng.choice([0.0, 0.005, 0.01]))
@@ -150,7 +177,7 @@ def run_scripted(sid, ctx):
     th.join(40)
     ctx.evaluated()
     ctx.count("scripted_calls")
-    desc = dict(cfg, callback_threads=ncb, sync_in_submit_p=sync_p, sid=sid)
+    desc = dict(cfg, callback_threads=ncb, sync_in_submit_p=sync_p, sid=sid, duration_profile=profile)
     if th.is_alive():
         # logical hang criterion: backend quiescent and no event for 6 s
         n0 = len(trace.events)
@@ -176,6 +203,11 @@ def run_scripted(sid, ctx):
     order = [e["bid"] for e in ev if e["k"] == "complete"]
     ctx.count("sync_in_submit_completions", sum(1 for e in ev if e["k"] == "complete" and e["sync"]))
     ctx.maxi("max_batch_size_seen", max([e["size"] for e in ev if e["k"] == "submit"] or [0]))
+    if profile:
+        sizes = [e["b"] for e in ev if e["k"] == "batch_size"]
+        ctx.add("distinct_auto_batch_size_sequences", tuple(sizes[:40]))
+        if any(x > y for x, y in zip(sizes, sizes[1:])):
+            ctx.count("auto_calls_in_which_the_batch_size_shrank")
     cb_threads = {e["t"] for e in ev if e["k"] == "complete"}
     ctx.maxi("max_callback_threads_in_one_call", len(cb_threads))
     if N >= 2:
